@@ -567,6 +567,28 @@ def run_c15(w: World, rep: Report):
             t1_pair(w, rep, 'C15.T1', lock, wn)
         if 'htlc' in lock:
             _hash_lock(w, rep, cx, lock)
+    # PTLC: the arm selected by the witness constant true commits to the receiver key (with the tweak point
+    # folded in by the builder), the other arm to the refund key
+    rep.rule('C15.T9', 'PTLC arms: true selects the receiver (tweaked) key, false the refund key', floor=1)
+    for v in cx.variants('make_ptlc_lock'):
+        paths = cx.run_lock(v, supply=True)
+        bad = ''
+        seen = {}
+        for p in paths:
+            p.auth_set()
+            arm = p.branch[0] if p.branch else 'main'
+            for key, ftok, op in p.sig_checks:
+                seen[arm] = _key_params(p, key)
+        if not ({'receiver_pubkey'} <= seen.get('then', set()) and 'refund_pubkey' not in seen.get('then', set())):
+            bad = f'the arm taken on `true` checks the signature under {sorted(seen.get("then", []))}, expected the receiver key'
+        elif not ({'refund_pubkey'} <= seen.get('else', set()) and 'receiver_pubkey' not in seen.get('else', set())):
+            bad = f'the arm taken on `false` checks the signature under {sorted(seen.get("else", []))}, expected the refund key'
+        rep.check('C15.T9', f'{_vtag(v)}|arm-keys', not bad, line=v.line, file=REL, why=bad)
+    fi = cx.fi('make_ptlc_lock')
+    agg = [n for n in ast.walk(fi.node) if isinstance(n, ast.Call) and dotted(n.func) == 'aggregate_points']
+    ok = len(agg) == 1 and sorted(ast.unparse(e) for e in getattr(agg[0].args[0], 'elts', [])) == ['receiver_pubkey', 'tweak_point']
+    rep.check('C15.T9', 'tools.make_ptlc_lock|tweak-folded-into-receiver', ok, line=fi.node.lineno, file=REL,
+              why='' if ok else 'the point lock is not receiver_pubkey + tweak_point')
     from .report import depend
     depend(rep, w, 'rules_c02', ('C02.R1', 'C02.R2', 'C02.R3', 'C02.R4', 'C02.R5'), 'C15.TD2',
            'the signature instruction both paths end in (allowed flags per bit, one message builder, length guards, '
